@@ -21,27 +21,31 @@ structure Abs where
   hooked : Bool
   recDone : Bool
   dirty : Bool
+  /-- between the read and the end of an export -/
+  xread : Bool
 deriving DecidableEq, Repr
 
-def Local.abs (l : Local) : Abs := ⟨l.held, l.depth, l.hooked, l.recDone, l.dirty⟩
+def Local.abs (l : Local) : Abs := ⟨l.held, l.depth, l.hooked, l.recDone, l.dirty, l.xread⟩
 
 /-- Abstract effect of an action (`none`: the action is not allowed in this abstract state).
 `readHooks` and `guardStarted` branch and are handled by `Sim`. -/
 def absAct (cfg : Cfg) (a : Abs) : Act → Option Abs
   | .acq l => if l ∈ a.held ∨ a.held.all (fun h => h.rank < l.rank) then some { a with held := l :: a.held } else none
-  | .rel l => if l ∈ a.held ∧ (l = .console → a.recDone = false) then some { a with held := a.held.erase l } else none
+  | .rel l => if l ∈ a.held ∧ (l = .console → a.recDone = false) ∧ (l = .record → a.xread = false) then some { a with held := a.held.erase l } else none
   | .enter => some { a with depth := a.depth + 1 }
   | .exitDec => if a.depth = 0 then none else some { a with depth := a.depth - 1 }
   | .hookPos | .pushUser _ | .pushCtl _ _ | .renderFrame | .restorePush =>
     if a.recDone then none else some { a with dirty := true }
-  | .recAppend => if .console ∈ a.held ∧ .record ∈ a.held ∧ a.recDone = false then some { a with recDone := true } else none
+  | .recAppend => if .console ∈ a.held ∧ .record ∈ a.held ∧ a.recDone = false ∧ a.xread = false then some { a with recDone := true } else none
   | .write => if .console ∈ a.held ∧ (cfg.record = true → a.recDone = true) then some { a with recDone := false, dirty := false } else none
   | .capBegin => some { a with depth := a.depth + 1 }
   | .capEnd => if a.recDone then none else some a
+  | .exportRead => if .record ∈ a.held ∧ a.xread = false then some { a with xread := true } else none
+  | .exportEnd _ => if .record ∈ a.held ∧ a.xread = true then some { a with xread := false } else none
   | _ => some a
 
 /-- The state in which an operation may end. -/
-def Abs.final (a : Abs) : Bool := a.held.isEmpty && a.depth == 0 && !a.recDone && !a.dirty
+def Abs.final (a : Abs) : Bool := !a.xread && a.held.isEmpty && a.depth == 0 && !a.recDone && !a.dirty
 
 def Sim (cfg : Cfg) : List GAct → Abs → Bool
   | [], a => a.final
@@ -49,8 +53,8 @@ def Sim (cfg : Cfg) : List GAct → Abs → Bool
     if guardOn cfg a.depth a.hooked g.g then
       match g.a with
       | .readHooks => Sim cfg r { a with hooked := true } && Sim cfg r { a with hooked := false }
-      | .guardStarted _ => Sim cfg r a && (a.held == [.live] && a.depth == 0 && !a.recDone && !a.dirty)
-      | .advance _ _ => Sim cfg r a && (a.held == [.live] && a.depth == 0 && !a.recDone && !a.dirty)
+      | .guardStarted _ => Sim cfg r a && (!a.xread && a.held == [.live] && a.depth == 0 && !a.recDone && !a.dirty)
+      | .advance _ _ => Sim cfg r a && (!a.xread && a.held == [.live] && a.depth == 0 && !a.recDone && !a.dirty)
       | act =>
         match absAct cfg a act with
         | some a' => Sim cfg r a'
@@ -78,15 +82,15 @@ theorem sim_generic {cfg : Cfg} {g : Guard} {act : Act} {r : List GAct} {a : Abs
 /-! ### the code of every operation passes the check -/
 
 theorem sim_append_print (cfg : Cfg) (k : DKind) (ls : List Line) (r : List GAct) (d : Nat) (hk dirty : Bool)
-    (hr : ∀ hk', Sim cfg r ⟨[], d + 1, hk', false, true⟩ = true) :
-    Sim cfg (printBody k (.pushUser ls) ++ r) ⟨[], d + 1, hk, false, dirty⟩ = true := by
+    (hr : ∀ hk', Sim cfg r ⟨[], d + 1, hk', false, true, false⟩ = true) :
+    Sim cfg (printBody k (.pushUser ls) ++ r) ⟨[], d + 1, hk, false, dirty, false⟩ = true := by
   cases k <;>
     simp [printBody, hookCode, frameCode, flushCode, ga, gh, Sim, guardOn, absAct, Lock.rank, hr]
 
 theorem sim_captureBodies (cfg : Cfg) (k : DKind) (r : List GAct) (d : Nat)
-    (hr : ∀ hk' dirty, Sim cfg r ⟨[], d + 1, hk', false, dirty⟩ = true) :
+    (hr : ∀ hk' dirty, Sim cfg r ⟨[], d + 1, hk', false, dirty, false⟩ = true) :
     ∀ (bodies : List (List Line)) (hk dirty : Bool),
-      Sim cfg (bodies.flatMap (fun ls => printBody k (.pushUser ls)) ++ r) ⟨[], d + 1, hk, false, dirty⟩ = true := by
+      Sim cfg (bodies.flatMap (fun ls => printBody k (.pushUser ls)) ++ r) ⟨[], d + 1, hk, false, dirty, false⟩ = true := by
   intro bodies
   induction bodies with
   | nil => intro hk dirty; simpa using hr hk dirty
@@ -95,7 +99,7 @@ theorem sim_captureBodies (cfg : Cfg) (k : DKind) (r : List GAct) (d : Nat)
     simp only [List.flatMap_cons, List.append_assoc]
     exact sim_append_print cfg k b _ d hk dirty (fun hk' => ih hk' true)
 
-theorem code_ok (cfg : Cfg) (op : Op) (hk : Bool) : Sim cfg (code cfg op) ⟨[], 0, hk, false, false⟩ = true := by
+theorem code_ok (cfg : Cfg) (op : Op) (hk : Bool) : Sim cfg (code cfg op) ⟨[], 0, hk, false, false, false⟩ = true := by
   cases op with
   | capture bodies =>
     simp only [code, captureCode, List.append_assoc, List.cons_append, List.nil_append, Sim, ga, guardOn, absAct]
